@@ -95,7 +95,8 @@ def tsrc(t: dict, mod: str | None = None) -> str:
     if k in SCALARS:
         return SCALARS[k]
     if k == "lit":
-        return "typing.Literal[" + ", ".join(repr(v) for v in t["v"]) + "]"
+        # (a member written {"$b": hex} is a bytes literal)
+        return "typing.Literal[" + ", ".join(repr(bytes.fromhex(v["$b"]) if isinstance(v, dict) else v) for v in t["v"]) + "]"
     if k == "ref":
         return t["n"] if (mod is not None and t["m"] == mod) else f"{t['m']}.{t['n']}"
     if k in CONTAINERS1:
